@@ -1,4 +1,7 @@
 mod common;
+mod fam_e;
+mod fam_p;
+mod fam_s;
 mod gast;
 mod interp;
 mod progcheck;
@@ -23,7 +26,10 @@ fn main() {
         }
     };
     let code = match args[1].as_str() {
+        "C01" => props::c01::run(tier),
+        "C02" => props::c02::run(tier),
         "C03" => props::c03::run(tier),
+        "C14" => props::c14::run(tier),
         other => {
             eprintln!("unknown property {other}");
             2
